@@ -215,7 +215,15 @@ def check_exchange(ctx, facts, rule, cfg_label=''):
                         elif 'Duration' in f['ty']:
                             raise Unmodelled('the configured timeout is not an Option<Duration>')
                         else:
-                            cells.append(Cell(('opaque', 'client-field:' + f['name'])))
+                            # a private two-variant enum of the crate standing for Option<Duration> (Unbounded | Within(Duration))
+                            ea = facts.adts.get(ty_head(f['ty']))
+                            vs = ea['variants'] if ea is not None and ea['kind'] == 'enum' and ea['def'].startswith(RPC) else []
+                            with_d = [i for i, v_ in enumerate(vs) if len(v_['fields']) == 1 and 'Duration' in v_['fields'][0]['ty']]
+                            bare = [i for i, v_ in enumerate(vs) if not v_['fields']]
+                            if len(vs) == 2 and len(with_d) == 1 and len(bare) == 1:
+                                cells.append(Cell(('adt', ty_head(f['ty']), with_d[0], [Cell(('dur', 'configured'))]) if timeout else ('adt', ty_head(f['ty']), bare[0], [])))
+                            else:
+                                cells.append(Cell(('opaque', 'client-field:' + f['name'])))
                     client = ('adt', cl[0], 0, cells)
                     ccells = []
                     for f in facts.adts[cx[0]]['variants'][0]['fields']:
